@@ -32,6 +32,10 @@ PKG_STYLE_INITS = [
     '"""Namespace package."""\n# declared below\n' + PKGUTIL_INIT,
     "try:\n    __import__('pkg_resources').declare_namespace(__name__)\nexcept ImportError:\n    __path__ = __import__('pkgutil').extend_path(__path__, __name__)\n",
     "if True:\n    __path__ = __import__('pkgutil').extend_path(__path__, __name__)\n",
+    # the declaration below a long licence header (scale: `<PAD:n>` is expanded when the file is written)
+    '"""Namespace package."""\n<PAD:1500>\n' + PKGUTIL_INIT,
+    "<PAD:9000>\n" + PKGRES_INIT,
+    "<PAD:70000>\n" + PKGUTIL_INIT,
 ]
 
 
@@ -195,6 +199,16 @@ def generate(rng, opts):
         files: dict = {}
         for top in tops:
             if sp > 0 and rng.random() < 0.25:
+                r = rng.random()
+                if r < 0.15:
+                    # a plain *file* named like the package (no suffix): not a namespace portion, not a module
+                    files[top] = "not a directory\n"
+                elif r < 0.3 and top not in pkgutil_names:
+                    # a directory that only holds stubs for the package (a `typings/` directory put on the search
+                    # path): for CPython a namespace portion at most, so a regular package elsewhere is the package
+                    files[f"{top}/__init__.pyi"] = _body("pyi", f"sp{sp}/{top}/__init__.pyi")
+                    if rng.random() < 0.5:
+                        files[f"{top}/{rng.choice(SUB_NAMES)}.pyi"] = _body("pyi", f"sp{sp}/{top}/x.pyi")
                 continue
             style = "pkgutil" if top in pkgutil_names else rng.choice([s for s in cfg["top_styles"] if s != "pkgutil"] or ["regular"])
             if style == "module":
@@ -282,7 +296,13 @@ def generate(rng, opts):
     sp_order = list(range(n_listed))
     if rng.random() < 0.5:
         rng.shuffle(sp_order)
+    nest = None
+    if n_listed >= 2 and "pth_flavor" not in cfg and rng.random() < 0.15:
+        # nested search paths (a project root and its `src` directory are both on the path)
+        child, parent = rng.sample(range(n_listed), 2)
+        nest = {"child": child, "parent": parent, "sub": rng.choice(["src", "src", "lib/py"])}
     return {
+        "nest": nest,
         # entries of the search path that do not exist, are plain files, or appear twice are legal (sys.path has them)
         "odd_paths": rng.sample(["missing", "dup", "file"], rng.choice([0, 0, 0, 1, 2])),
         # a long-lived loader that already served another request (cached directory listings, inserted search paths)
@@ -552,6 +572,11 @@ def conflict_tags(dirs, dotted):
         init_sps = {sp for sp, k in occ if k == "initpy"}
         if i > 1 and init_sps and dir_sps - init_sps:
             tags.add("regular-and-namespace-dir-same-name")
+        stub_only_sps = {sp for sp, k in occ if k == "initpyi"} - init_sps
+        if i == 1 and stub_only_sps and ({sp for sp, _ in occ} - stub_only_sps):
+            # a top-level directory that holds only stubs (`__init__.pyi`) in one search path, anything of that name
+            # (regular package, namespace portion, module) in another
+            tags.add("top-level-stubs-only-directory")
         kinds = {k for _, k in occ}
         if kinds & {"py", "pyi", "ext", "pyc"} and "dir" in kinds:
             # top-level conflicts are settled by find_package (correctly); the known defect is about sub-modules
@@ -590,7 +615,13 @@ def execute(plan, ctx):
 
     world = plan["world"]
     tags = []
-    with World(world["dirs"], tag="c14-", names=plan.get("sp_names")) as w:
+    names = list(plan.get("sp_names") or [])
+    names += [f"sp{i}" for i in range(len(names), len(world["dirs"]))]
+    nest = plan.get("nest")
+    if nest and max(nest["child"], nest["parent"]) < len(world["dirs"]) and nest["child"] != nest["parent"]:
+        names[nest["child"]] = names[nest["parent"]] + "/" + nest["sub"]
+        ctx.probe("nested-search-paths")
+    with World(world["dirs"], tag="c14-", names=names) as w:
         order = [i for i in plan.get("sp_order", range(world["n_listed"])) if i < world["n_listed"]]
         order += [i for i in range(world["n_listed"]) if i not in order]
         sps = [w.sp_dirs[i] for i in order]
@@ -790,6 +821,8 @@ def shrink_candidates(plan):
             yield {**plan, "outside": {**o, "first": "none"}}
     if plan.get("sp_names"):
         yield {**plan, "sp_names": None}
+    if plan.get("nest"):
+        yield {**plan, "nest": None}
     if plan.get("sp_order") and plan["sp_order"] != sorted(plan["sp_order"]):
         yield {**plan, "sp_order": sorted(plan["sp_order"])}
 
@@ -819,7 +852,7 @@ class _Prop:
         "schedules (sorted, reversed, hashed permutations of every directory) x request by name / Path of the "
         "directory / string path. The first successful tree is compared with CPython's PathFinder/pkgutil view and "
         "all loads must give the same normalised tree. Non-trivial = some listing had a choice of order; distinct "
-        "= distinct (tree hash, outcome, number of loads). Also drawn per world: the order of the search paths (independent of the directory names), user-style directory names for them (prefix-related names, a space), non-existent / duplicate / plain-file search-path entries, editable-install .pth shapes, <top>-stubs packages with find_stubs_package, a relative-string request form, reuse of a loader that already served another request, dotted and hidden directories, several spellings of pkgutil/pkg_resources namespace declarations; 1.5 % of worlds cross-check the oracle against a real import in a pristine interpreter. Round k: a second copy of the target package outside the search path, requested by its path from a loader that already served the installed copy (reference: CPython with that directory put in front)."
+        "= distinct (tree hash, outcome, number of loads). Also drawn per world: the order of the search paths (independent of the directory names), user-style directory names for them (prefix-related names, a space), non-existent / duplicate / plain-file search-path entries, editable-install .pth shapes, <top>-stubs packages with find_stubs_package, a relative-string request form, reuse of a loader that already served another request, dotted and hidden directories, several spellings of pkgutil/pkg_resources namespace declarations; 1.5 % of worlds cross-check the oracle against a real import in a pristine interpreter. Round r: plain files named like the package, top-level directories holding only stubs, nested search paths (root and root/src), namespace declarations below licence headers of up to 70,000 characters. Round k: a second copy of the target package outside the search path, requested by its path from a loader that already served the installed copy (reference: CPython with that directory put in front)."
     )
     COMPONENTS = {
         "real": ["_griffe.finder", "_griffe.loader", "_griffe.agents.visitor", "_griffe.merger", "_griffe.models", "CPython importlib.machinery.PathFinder / pkgutil (oracle, unperturbed)", "real files on tmpfs"],
